@@ -470,7 +470,8 @@ def run_case(case, R):
                         walk = next(c for c in walk["children"] if c["key"] == key)
                         chain_ok = chain_ok and walk["kind"] == "schema"
                     via_doc = route == "loads" and ops.is_plain(_nest(path, tree), fmt)  # else it falls back to load_tree
-                    bad = _first_bad(node, tree, ctx, path, includes_first=(via_doc and chain_ok))
+                    # (PyYAML writes the keys of a map in sorted order: a YAML document applies them in that order)
+                    bad = _first_bad(node, tree, ctx, path, includes_first=(via_doc and chain_ok), sort=(via_doc and fmt == "yaml"))
                     if bad is None:
                         return
                     want, name = bad
@@ -688,7 +689,7 @@ def run_case(case, R):
             R.check(name in text, "text", "friendly-name", lambda: "message %r lacks the friendly name %r" % (text[:160], name))
 
 
-def _first_bad(node, tree, ctx, path, includes_first=False):
+def _first_bad(node, tree, ctx, path, includes_first=False, sort=False):
     """Path (dotted) and friendly name of the first leaf of ``tree`` that the reference rejects (load order).
     A document load resolves the include fields of a scope before anything else of that scope is applied."""
     if not isinstance(tree, dict):
@@ -701,13 +702,13 @@ def _first_bad(node, tree, ctx, path, includes_first=False):
                 if refmodel.ref(c, v, ctx)[0] == REJ:
                     return (".".join(path + (k,)), c.get("name"))
                 return None  # a resolvable include merges another file: not modelled here
-    for k, v in tree.items():
+    for k, v in (sorted(tree.items(), key=lambda kv: kv[0]) if sort else tree.items()):
         c = by_key.get(k)
         if c is None:
             continue
         if c["kind"] in ("schema", "configtype"):
             if isinstance(v, dict):
-                sub = _first_bad(c, v, ctx, path + (k,), includes_first)
+                sub = _first_bad(c, v, ctx, path + (k,), includes_first, sort)
                 if sub:
                     return sub
             elif v is not None:
